@@ -15,14 +15,14 @@ Inductive op :=
 (* stdlib paths are one token each: incan_stdlib::num::py_mod_i64 etc., incan_stdlib::iter::range *)
 Inductive helper := HModI64 | HMod | HFloorI64 | HFloor.
 
-Inductive kw := KLet | KMut | KIf | KElse | KWhile | KLoop | KFor | KIn | KBreak | KContinue.
+Inductive kw := KLet | KMut | KIf | KElse | KWhile | KLoop | KFor | KIn | KBreak | KContinue | KReturn | KFn.
 
 Inductive tok :=
-| TInt (n : Z) | TTrue | TFalse | TId (x : ident)
+| TInt (n : Z) | TTrue | TFalse | TId (x : ident) | TFn (f : ident)      (* variable v<x>, function f<f> *)
 | TPath (h : helper) | TRange
 | TOp (o : op) | TKw (k : kw)
 | TSemi | TComma | TAssign | TBang | TPrintln | TFmt      (* ; , = ! println "{}" *)
-| TAs | TI64.
+| TAs | TI64 | TColon | TArrow.
 
 Inductive delim := Paren | Brace.
 
@@ -39,36 +39,51 @@ Inductive rexpr :=
 | RCall (h : helper) (a b : rexpr)
 | RCast (e : rexpr).                                   (* `e as i64` *)
 
-(* statements, generic in the expression type: the lowering IR and the parsed Rust share the shape *)
+(* call-level expressions: a call-free expression or a call of a user function *)
+Inductive rcexpr :=
+| RPure (e : rexpr)
+| RUCall (f : ident) (args : list rexpr).
+
+(* statements, generic in the two expression types (X call-free, Y call-level): the lowering IR and
+   the parsed Rust share the shape *)
 Section G.
-  Variable X : Type.
+  Variables X Y : Type.
   Inductive gstmt :=
-  | GLet (x : ident) (m : bool) (e : X)
-  | GAssign (x : ident) (e : X)
+  | GLet (x : ident) (m : bool) (e : Y)
+  | GAssign (x : ident) (e : Y)
   | GIf (c : X) (th : gblock) (el : gels)
   | GWhile (c : X) (b : gblock)
   | GLoop (b : gblock)
   | GFor (x : ident) (a z s : X) (b : gblock)        (* for x in range(a, z, s) *)
-  | GPrint (e : X)
+  | GPrint (e : Y)
+  | GExpr (e : Y)
+  | GReturn (e : option Y)
   | GUnit
   | GBreak
   | GContinue
   with gblock := GNil | GCons (s : gstmt) (r : gblock)
   with gels := GNoElse | GElse (b : gblock).
 End G.
-Arguments GLet {X}. Arguments GAssign {X}. Arguments GIf {X}. Arguments GWhile {X}.
-Arguments GLoop {X}. Arguments GFor {X}. Arguments GPrint {X}. Arguments GUnit {X}.
-Arguments GBreak {X}. Arguments GContinue {X}. Arguments GNil {X}. Arguments GCons {X}.
-Arguments GNoElse {X}. Arguments GElse {X}.
+Arguments GLet {X Y}. Arguments GAssign {X Y}. Arguments GIf {X Y}. Arguments GWhile {X Y}.
+Arguments GLoop {X Y}. Arguments GFor {X Y}. Arguments GPrint {X Y}. Arguments GExpr {X Y}.
+Arguments GReturn {X Y}. Arguments GUnit {X Y}.
+Arguments GBreak {X Y}. Arguments GContinue {X Y}. Arguments GNil {X Y}. Arguments GCons {X Y}.
+Arguments GNoElse {X Y}. Arguments GElse {X Y}.
 
 Scheme gstmt_mind := Induction for gstmt Sort Prop
   with gblock_mind := Induction for gblock Sort Prop
   with gels_mind := Induction for gels Sort Prop.
 Combined Scheme gstmt_gblock_gels_ind from gstmt_mind, gblock_mind, gels_mind.
 
-Definition rstmt := gstmt rexpr.
-Definition rblock := gblock rexpr.
-Definition rels := gels rexpr.
+Definition rstmt := gstmt rexpr rcexpr.
+Definition rblock := gblock rexpr rcexpr.
+Definition rels := gels rexpr rcexpr.
+
+(* a function item `fn f(p1: i64, ...) [-> i64] { body }` *)
+Record rfn := { rname : ident; rparams : list ident; rret : bool; rbody : rblock }.
+Definition rprog := list rfn.
+Fixpoint find_rfn (f : ident) (p : rprog) : option rfn :=
+  match p with [] => None | d :: r => if f =? rname d then Some d else find_rfn f r end.
 
 (* ---------------------------------------------------------------- expression grammar *)
 
@@ -209,6 +224,31 @@ Definition split3 (ts : list tt) : option (list tt * list tt * list tt) :=
   | None => None
   end.
 
+(* all comma-separated pieces of an argument list (no piece for an empty list) *)
+Fixpoint split_commas (cur : list tt) (ts : list tt) : list (list tt) :=
+  match ts with
+  | [] => match cur with [] => [] | _ => [rev cur] end
+  | T TComma :: r => rev cur :: split_commas [] r
+  | t :: r => split_commas (t :: cur) r
+  end.
+
+Fixpoint parse_all (l : list (list tt)) : option (list rexpr) :=
+  match l with
+  | [] => Some []
+  | ts :: r => match parse_expr ts, parse_all r with
+               | Some e, Some es => Some (e :: es)
+               | _, _ => None
+               end
+  end.
+
+(* a call-level expression: `f<k>( args )` or a call-free expression *)
+Definition parse_c (ts : list tt) : option rcexpr :=
+  match ts with
+  | [T (TFn f); G Paren at_] =>
+      match parse_all (split_commas [] at_) with Some es => Some (RUCall f es) | None => None end
+  | _ => match parse_expr ts with Some e => Some (RPure e) | None => None end
+  end.
+
 Fixpoint p_block (f : nat) (ts : list tt) {struct f} : option rblock :=
   match f with
   | O => None
@@ -218,7 +258,7 @@ Fixpoint p_block (f : nat) (ts : list tt) {struct f} : option rblock :=
     | T (TKw KLet) :: T (TKw KMut) :: T (TId x) :: T TAssign :: r =>
         match split_semi r with
         | Some (et, r1) =>
-            match parse_expr et, p_block f' r1 with
+            match parse_c et, p_block f' r1 with
             | Some e, Some b => Some (GCons (GLet x true e) b)
             | _, _ => None
             end
@@ -227,7 +267,7 @@ Fixpoint p_block (f : nat) (ts : list tt) {struct f} : option rblock :=
     | T (TKw KLet) :: T (TId x) :: T TAssign :: r =>
         match split_semi r with
         | Some (et, r1) =>
-            match parse_expr et, p_block f' r1 with
+            match parse_c et, p_block f' r1 with
             | Some e, Some b => Some (GCons (GLet x false e) b)
             | _, _ => None
             end
@@ -236,16 +276,32 @@ Fixpoint p_block (f : nat) (ts : list tt) {struct f} : option rblock :=
     | T (TId x) :: T TAssign :: r =>
         match split_semi r with
         | Some (et, r1) =>
-            match parse_expr et, p_block f' r1 with
+            match parse_c et, p_block f' r1 with
             | Some e, Some b => Some (GCons (GAssign x e) b)
             | _, _ => None
             end
         | None => None
         end
     | T TPrintln :: T TBang :: G Paren (T TFmt :: T TComma :: et) :: T TSemi :: r =>
-        match parse_expr et, p_block f' r with
+        match parse_c et, p_block f' r with
         | Some e, Some b => Some (GCons (GPrint e) b)
         | _, _ => None
+        end
+    | T (TFn g) :: G Paren at_ :: T TSemi :: r =>
+        match parse_c [T (TFn g); G Paren at_], p_block f' r with
+        | Some e, Some b => Some (GCons (GExpr e) b)
+        | _, _ => None
+        end
+    | T (TKw KReturn) :: T TSemi :: r =>
+        match p_block f' r with Some b => Some (GCons (GReturn None) b) | None => None end
+    | T (TKw KReturn) :: r =>
+        match split_semi r with
+        | Some (et, r1) =>
+            match parse_c et, p_block f' r1 with
+            | Some e, Some b => Some (GCons (GReturn (Some e)) b)
+            | _, _ => None
+            end
+        | None => None
         end
     | G Paren [] :: T TSemi :: r =>
         match p_block f' r with Some b => Some (GCons GUnit b) | None => None end
@@ -302,6 +358,33 @@ Fixpoint p_block (f : nat) (ts : list tt) {struct f} : option rblock :=
   end.
 
 Definition parse_block (ts : list tt) : option rblock := p_block (tts_size ts + 1) ts.
+
+(* `p1 : i64 , p2 : i64` *)
+Fixpoint parse_params (ts : list tt) : option (list ident) :=
+  match ts with
+  | [] => Some []
+  | [T (TId p); T TColon; T TI64] => Some [p]
+  | T (TId p) :: T TColon :: T TI64 :: T TComma :: r =>
+      match parse_params r with Some l => Some (p :: l) | None => None end
+  | _ => None
+  end.
+
+(* a file: a sequence of `fn f(params) [-> i64] { body }` items *)
+Fixpoint parse_items (ts : list tt) : option rprog :=
+  match ts with
+  | [] => Some []
+  | T (TKw KFn) :: T (TFn f) :: G Paren pt :: T TArrow :: T TI64 :: G Brace bt :: r =>
+      match parse_params pt, parse_block bt, parse_items r with
+      | Some ps, Some b, Some rest => Some ({| rname := f; rparams := ps; rret := true; rbody := b |} :: rest)
+      | _, _, _ => None
+      end
+  | T (TKw KFn) :: T (TFn f) :: G Paren pt :: G Brace bt :: r =>
+      match parse_params pt, parse_block bt, parse_items r with
+      | Some ps, Some b, Some rest => Some ({| rname := f; rparams := ps; rret := false; rbody := b |} :: rest)
+      | _, _, _ => None
+      end
+  | _ => None
+  end.
 
 (* ---------------------------------------------------------------- meaning of terms *)
 
@@ -418,47 +501,71 @@ Fixpoint reval (E : env) (e : rexpr) : rres :=
 Definition rstop_of (r : rres) : stop :=
   match r with RV _ => Stuck | RZeroDiv => ZeroDiv | RPanic => RustPanic | RStuck => Stuck end.
 
-Fixpoint rexec_stmt (fuel : nat) (E : env) (s : rstmt) {struct fuel} : xres :=
+(* arguments of a call, evaluated left to right in EMITTED order *)
+Fixpoint reval_args (E : env) (l : list rexpr) : list val + rres :=
+  match l with
+  | [] => inl []
+  | e :: r => match reval E e with
+              | RV v => match reval_args E r with inl vs => inl (v :: vs) | inr x => inr x end
+              | x => inr x
+              end
+  end.
+
+Definition rcev_with (callf : ident -> list rexpr -> list line * cres) (E : env) (c : rcexpr) : list line * cres :=
+  match c with
+  | RPure e => match reval E e with
+               | RV v => ([], CV (Some v))
+               | r => ([], CHalt (rstop_of r))
+               end
+  | RUCall fn args => callf fn args
+  end.
+
+
+Fixpoint rexec_stmt (P : rprog) (fuel : nat) (E : env) (s : rstmt) {struct fuel} : xres :=
   match fuel with
   | O => ([], E, Halt OutOfFuel)
   | S f =>
     match s with
-    | GLet x _ e =>
-        match reval E e with
-        | RV v => ([], ebind x v E, Go)
-        | r => ([], E, Halt (rstop_of r))
+    | GLet x _ c =>
+        match rcev_with (rcall P f E) E c with
+        | (o, CV (Some v)) => (o, ebind x v E, Go)
+        | (o, CV None) => (o, E, Halt Stuck)
+        | (o, CHalt k) => (o, E, Halt k)
         end
-    | GAssign x e =>
-        match reval E e with
-        | RV v => if bound x E then ([], eupdate x v E, Go) else ([], E, Halt Stuck)
-        | r => ([], E, Halt (rstop_of r))
+    | GAssign x c =>
+        match rcev_with (rcall P f E) E c with
+        | (o, CV (Some v)) => if bound x E then (o, eupdate x v E, Go) else (o, E, Halt Stuck)
+        | (o, CV None) => (o, E, Halt Stuck)
+        | (o, CHalt k) => (o, E, Halt k)
         end
     | GIf c th el =>
         match reval E c with
-        | RV (VB true) => in_scope (length E) (rexec_block f E th)
+        | RV (VB true) => in_scope (length E) (rexec_block P f E th)
         | RV (VB false) => match el with
                            | GNoElse => ([], E, Go)
-                           | GElse b => in_scope (length E) (rexec_block f E b)
+                           | GElse b => in_scope (length E) (rexec_block P f E b)
                            end
         | r => ([], E, Halt (rstop_of r))
         end
     | GWhile c b =>
         match reval E c with
         | RV (VB true) =>
-            let '(o, E1, g) := in_scope (length E) (rexec_block f E b) in
+            let '(o, E1, g) := in_scope (length E) (rexec_block P f E b) in
             match g with
-            | Go | Cont => let '(o2, E2, g2) := rexec_stmt f E1 (GWhile c b) in (o ++ o2, E2, g2)
+            | Go | Cont => let '(o2, E2, g2) := rexec_stmt P f E1 (GWhile c b) in (o ++ o2, E2, g2)
             | Brk => (o, E1, Go)
+            | Ret v => (o, E1, Ret v)
             | Halt k => (o, E1, Halt k)
             end
         | RV (VB false) => ([], E, Go)
         | r => ([], E, Halt (rstop_of r))
         end
     | GLoop b =>
-        let '(o, E1, g) := in_scope (length E) (rexec_block f E b) in
+        let '(o, E1, g) := in_scope (length E) (rexec_block P f E b) in
         match g with
-        | Go | Cont => let '(o2, E2, g2) := rexec_stmt f E1 (GLoop b) in (o ++ o2, E2, g2)
+        | Go | Cont => let '(o2, E2, g2) := rexec_stmt P f E1 (GLoop b) in (o ++ o2, E2, g2)
         | Brk => (o, E1, Go)
+        | Ret v => (o, E1, Ret v)
         | Halt k => (o, E1, Halt k)
         end
     | GFor x a z s b =>
@@ -467,51 +574,89 @@ Fixpoint rexec_stmt (fuel : nat) (E : env) (s : rstmt) {struct fuel} : xres :=
             match reval E z with
             | RV (VI vz) =>
                 match reval E s with
-                | RV (VI vs) => if vs =? 0 then ([], E, Halt StepZero) else rexec_range f E x va vz vs b
+                | RV (VI vs) => if vs =? 0 then ([], E, Halt StepZero) else rexec_range P f E x va vz vs b
                 | r => ([], E, Halt (rstop_of r))
                 end
             | r => ([], E, Halt (rstop_of r))
             end
         | r => ([], E, Halt (rstop_of r))
         end
-    | GPrint e =>
-        match reval E e with
-        | RV v => ([line_of v], E, Go)
-        | r => ([], E, Halt (rstop_of r))
+    | GPrint c =>
+        match rcev_with (rcall P f E) E c with
+        | (o, CV (Some v)) => (o ++ [line_of v], E, Go)
+        | (o, CV None) => (o, E, Halt Stuck)
+        | (o, CHalt k) => (o, E, Halt k)
+        end
+    | GExpr c =>
+        match rcev_with (rcall P f E) E c with
+        | (o, CV _) => (o, E, Go)
+        | (o, CHalt k) => (o, E, Halt k)
+        end
+    | GReturn None => ([], E, Ret None)
+    | GReturn (Some c) =>
+        match rcev_with (rcall P f E) E c with
+        | (o, CV (Some v)) => (o, E, Ret (Some v))
+        | (o, CV None) => (o, E, Halt Stuck)
+        | (o, CHalt k) => (o, E, Halt k)
         end
     | GUnit => ([], E, Go)
     | GBreak => ([], E, Brk)
     | GContinue => ([], E, Cont)
     end
   end
-with rexec_block (fuel : nat) (E : env) (b : rblock) {struct fuel} : xres :=
+with rexec_block (P : rprog) (fuel : nat) (E : env) (b : rblock) {struct fuel} : xres :=
   match fuel with
   | O => ([], E, Halt OutOfFuel)
   | S f =>
     match b with
     | GNil => ([], E, Go)
-    | GCons s r => xseq (rexec_stmt f E s) (fun E1 => rexec_block f E1 r)
+    | GCons s r => xseq (rexec_stmt P f E s) (fun E1 => rexec_block P f E1 r)
     end
   end
 (* incan_stdlib::iter::PyRange::next: `self.cur = self.cur.checked_add(self.step).unwrap_or(self.end)` *)
-with rexec_range (fuel : nat) (E : env) (x : ident) (cur stp step : Z) (b : rblock) {struct fuel} : xres :=
+with rexec_range (P : rprog) (fuel : nat) (E : env) (x : ident) (cur stp step : Z) (b : rblock) {struct fuel} : xres :=
   match fuel with
   | O => ([], E, Halt OutOfFuel)
   | S f =>
     if range_done cur stp step then ([], E, Go) else
-    let '(o, E1, g) := in_scope (length E) (rexec_block f ((x, VI cur) :: E) b) in
+    let '(o, E1, g) := in_scope (length E) (rexec_block P f ((x, VI cur) :: E) b) in
     match g with
     | Go | Cont =>
         let nxt := if in_i64b (cur + step) then cur + step else stp in
-        let '(o2, E2, g2) := rexec_range f E1 x nxt stp step b in (o ++ o2, E2, g2)
+        let '(o2, E2, g2) := rexec_range P f E1 x nxt stp step b in (o ++ o2, E2, g2)
     | Brk => (o, E1, Go)
+    | Ret v => (o, E1, Ret v)
     | Halt k => (o, E1, Halt k)
+    end
+  end
+(* a Rust call: arguments left to right, positional binding *)
+with rcall (P : rprog) (fuel : nat) (E : env) (fn : ident) (al : list rexpr) {struct fuel} : list line * cres :=
+  match fuel with
+  | O => ([], CHalt OutOfFuel)
+  | S f =>
+    match find_rfn fn P with
+    | None => ([], CHalt Stuck)
+    | Some d =>
+        match reval_args E al with
+        | inr r => ([], CHalt (rstop_of r))
+        | inl vs =>
+            if negb (Nat.eqb (length (rparams d)) (length vs)) then ([], CHalt Stuck) else
+            let '(o, _, g) := rexec_block P f (combine (rparams d) vs) (rbody d) in
+            match g with
+            | Ret (Some v) => if rret d then (o, CV (Some v)) else (o, CHalt Stuck)
+            | Ret None | Go => if rret d then (o, CHalt Stuck) else (o, CV None)
+            | Brk | Cont => (o, CHalt Stuck)
+            | Halt k => (o, CHalt k)
+            end
+        end
     end
   end.
 
-Definition rrun (fuel : nat) (ps : list ident) (av : list Z) (b : rblock) : list line * stop :=
-  if negb (Nat.eqb (length ps) (length av)) then ([], Stuck) else
-  let '(o, _, g) := rexec_block fuel (combine ps (map VI av)) b in (o, final g).
+Definition rrun (fuel : nat) (p : rprog) (entry : ident) (av : list rexpr) : list line * stop :=
+  match rcall p fuel [] entry av with
+  | (o, CV _) => (o, Done)
+  | (o, CHalt k) => (o, k)
+  end.
 
 (* ---------------------------------------------------------------- typing (i64 / bool) *)
 (* Types are written with the source names: TyInt is i64, TyBool is bool (TyUnk is never produced).
@@ -559,39 +704,82 @@ Definition is_i64 (o : option ty) : bool := match o with Some TyInt => true | _ 
 Definition is_boolt (o : option ty) : bool := match o with Some TyBool => true | _ => false end.
 Definition is_some {A} (o : option A) : bool := match o with Some _ => true | None => false end.
 
-(* [lp]: inside a loop body (break/continue allowed).  Returns the environment after the
-   statement, or None if rustc would reject. *)
-Fixpoint rtype_stmt (lp : bool) (E : tframe) (s : rstmt) : option tframe :=
+(* signatures of the program's functions: name -> (number of parameters, returns i64) *)
+Definition fsigs := list (ident * (nat * bool)).
+Fixpoint find_sig (f : ident) (S0 : fsigs) : option (nat * bool) :=
+  match S0 with [] => None | (g, v) :: r => if f =? g then Some v else find_sig f r end.
+
+(* type of a call-level expression: Some (Some t) a value of type t, Some None unit *)
+Definition rtype_c (S0 : fsigs) (E : tframe) (c : rcexpr) : option (option ty) :=
+  match c with
+  | RPure e => match rtype_expr E e with Some t => Some (Some t) | None => None end
+  | RUCall f al =>
+      match find_sig f S0 with
+      | Some (n, rt) =>
+          if Nat.eqb n (length al) && forallb (fun a => is_i64 (rtype_expr E a)) al
+          then Some (if rt then Some TyInt else None) else None
+      | None => None
+      end
+  end.
+
+(* [lp]: inside a loop body (break/continue allowed); [rt]: the enclosing function returns i64.
+   Returns the environment after the statement, or None if rustc would reject. *)
+Fixpoint rtype_stmt (S0 : fsigs) (rt lp : bool) (E : tframe) (s : rstmt) : option tframe :=
   match s with
-  | GLet x m e => match rtype_expr E e with Some t => Some ((x, (t, m)) :: E) | None => None end
-  | GAssign x e =>
-      match tflookup x E, rtype_expr E e with
-      | Some (t, true), Some t' => if ty_eqb t t' then Some E else None
+  | GLet x m c => match rtype_c S0 E c with Some (Some t) => Some ((x, (t, m)) :: E) | _ => None end
+  | GAssign x c =>
+      match tflookup x E, rtype_c S0 E c with
+      | Some (t, true), Some (Some t') => if ty_eqb t t' then Some E else None
       | _, _ => None
       end
   | GIf c th el =>
-      if is_boolt (rtype_expr E c) && is_some (rtype_block lp E th) &&
-         match el with GNoElse => true | GElse b => is_some (rtype_block lp E b) end
+      if is_boolt (rtype_expr E c) && is_some (rtype_block S0 rt lp E th) &&
+         match el with GNoElse => true | GElse b => is_some (rtype_block S0 rt lp E b) end
       then Some E else None
   | GWhile c b =>
-      if is_boolt (rtype_expr E c) && is_some (rtype_block true E b) then Some E else None
-  | GLoop b => if is_some (rtype_block true E b) then Some E else None
+      if is_boolt (rtype_expr E c) && is_some (rtype_block S0 rt true E b) then Some E else None
+  | GLoop b => if is_some (rtype_block S0 rt true E b) then Some E else None
   | GFor x a z s b =>
       if is_i64 (rtype_expr E a) && is_i64 (rtype_expr E z) && is_i64 (rtype_expr E s) &&
-         is_some (rtype_block true ((x, (TyInt, false)) :: E) b)
+         is_some (rtype_block S0 rt true ((x, (TyInt, false)) :: E) b)
       then Some E else None
-  | GPrint e => match rtype_expr E e with Some _ => Some E | None => None end
+  | GPrint c => match rtype_c S0 E c with Some (Some _) => Some E | _ => None end
+  | GExpr c => match rtype_c S0 E c with Some _ => Some E | None => None end
+  | GReturn None => if rt then None else Some E
+  | GReturn (Some c) =>
+      match rtype_c S0 E c with
+      | Some (Some TyInt) => if rt then Some E else None
+      | _ => None
+      end
   | GUnit => Some E
   | GBreak | GContinue => if lp then Some E else None
   end
-with rtype_block (lp : bool) (E : tframe) (b : rblock) : option tframe :=
+with rtype_block (S0 : fsigs) (rt lp : bool) (E : tframe) (b : rblock) : option tframe :=
   match b with
   | GNil => Some E
-  | GCons s r => match rtype_stmt lp E s with Some E1 => rtype_block lp E1 r | None => None end
+  | GCons s r => match rtype_stmt S0 rt lp E s with Some E1 => rtype_block S0 rt lp E1 r | None => None end
   end.
 
-Definition rtype_fn (ps : list ident) (b : rblock) : bool :=
-  is_some (rtype_block false (map (fun p => (p, (TyInt, false))) ps) b).
+(* rustc accepts a body of a function returning i64 only if it cannot fall off its end: here, if
+   its last statement is a `return` or an if/else whose branches all end that way *)
+Fixpoint ends_in_return (b : rblock) : bool :=
+  match b with
+  | GNil => false
+  | GCons s GNil =>
+      match s with
+      | GReturn _ => true
+      | GIf _ th (GElse el) => ends_in_return th && ends_in_return el
+      | _ => false
+      end
+  | GCons _ r => ends_in_return r
+  end.
+
+Definition rtype_fn (S0 : fsigs) (d : rfn) : bool :=
+  is_some (rtype_block S0 (rret d) false (map (fun p => (p, (TyInt, false))) (rparams d)) (rbody d)) &&
+  (negb (rret d) || ends_in_return (rbody d)).
+
+Definition sigs_of (p : rprog) : fsigs := map (fun d => (rname d, (length (rparams d), rret d))) p.
+Definition rtype_prog (p : rprog) : bool := forallb (rtype_fn (sigs_of p)) p.
 
 (* decidable equality of terms: used to define the grouping class by the re-parse itself *)
 Definition rbop_eq_dec (a b : rbop) : {a = b} + {a <> b}.
@@ -607,16 +795,37 @@ Defined.
    class of a whole function by the re-parse of its emitted body *)
 Definition rexpr_eqb (a b : rexpr) : bool := if rexpr_eq_dec a b then true else false.
 
+Fixpoint rexprs_eqb (a b : list rexpr) : bool :=
+  match a, b with
+  | [], [] => true
+  | x :: r, y :: s => rexpr_eqb x y && rexprs_eqb r s
+  | _, _ => false
+  end.
+Definition rcexpr_eqb (a b : rcexpr) : bool :=
+  match a, b with
+  | RPure x, RPure y => rexpr_eqb x y
+  | RUCall f l, RUCall g m => (f =? g) && rexprs_eqb l m
+  | _, _ => false
+  end.
+Definition orc_eqb (a b : option rcexpr) : bool :=
+  match a, b with
+  | None, None => true
+  | Some x, Some y => rcexpr_eqb x y
+  | _, _ => false
+  end.
+
 Fixpoint rstmt_eqb (a b : rstmt) {struct a} : bool :=
   match a, b with
-  | GLet x m e, GLet x' m' e' => (x =? x') && Bool.eqb m m' && rexpr_eqb e e'
-  | GAssign x e, GAssign x' e' => (x =? x') && rexpr_eqb e e'
+  | GLet x m e, GLet x' m' e' => (x =? x') && Bool.eqb m m' && rcexpr_eqb e e'
+  | GAssign x e, GAssign x' e' => (x =? x') && rcexpr_eqb e e'
   | GIf c t e, GIf c' t' e' => rexpr_eqb c c' && rblock_eqb t t' && rels_eqb e e'
   | GWhile c b1, GWhile c' b2 => rexpr_eqb c c' && rblock_eqb b1 b2
   | GLoop b1, GLoop b2 => rblock_eqb b1 b2
   | GFor x a z s b1, GFor x' a' z' s' b2 =>
       (x =? x') && rexpr_eqb a a' && rexpr_eqb z z' && rexpr_eqb s s' && rblock_eqb b1 b2
-  | GPrint e, GPrint e' => rexpr_eqb e e'
+  | GPrint e, GPrint e' => rcexpr_eqb e e'
+  | GExpr e, GExpr e' => rcexpr_eqb e e'
+  | GReturn e, GReturn e' => orc_eqb e e'
   | GUnit, GUnit | GBreak, GBreak | GContinue, GContinue => true
   | _, _ => false
   end
@@ -630,5 +839,20 @@ with rels_eqb (a b : rels) {struct a} : bool :=
   match a, b with
   | GNoElse, GNoElse => true
   | GElse x, GElse y => rblock_eqb x y
+  | _, _ => false
+  end.
+
+Fixpoint idents_eqb (a b : list ident) : bool :=
+  match a, b with
+  | [], [] => true
+  | x :: r, y :: s => (x =? y) && idents_eqb r s
+  | _, _ => false
+  end.
+Definition rfn_eqb (a b : rfn) : bool :=
+  (rname a =? rname b) && idents_eqb (rparams a) (rparams b) && Bool.eqb (rret a) (rret b) && rblock_eqb (rbody a) (rbody b).
+Fixpoint rprog_eqb (a b : rprog) : bool :=
+  match a, b with
+  | [], [] => true
+  | x :: r, y :: s => rfn_eqb x y && rprog_eqb r s
   | _, _ => false
   end.
